@@ -1216,3 +1216,54 @@ def run_buf_faults(prop, tier, seed):
     res.update(evaluations=ev, distinct_nontrivial=ev, traces=0,
                rule="8 buffered classes x (3 victims of a removed directory at the backend-wide exit + 3 first operations on a path that cannot be stat'ed)")
     return res
+
+
+# ------------------------------------------------------------------------------------------ C06: directed scripts, two objects on one file
+def c06_scripts(kind):
+    mod = (lambda i: ("LAppend", "w" + str(i))) if kind == "list" else (lambda i: ("DSet", "w" + str(i), i))
+    read = ("LCall",) if kind == "list" else ("DCall",)
+    reset = ("LReset", ["r"]) if kind == "list" else ("DReset", {"r": 1})
+    out = {
+        "b never touches the buffer and leaves first": [("eo", 0), ("eo", 1), ("op", 0, [], mod(0)), ("xo", 1), ("xo", 0)],
+        "a leaves first, b wrote last": [("eo", 0), ("eo", 1), ("op", 0, [], mod(0)), ("op", 1, [], mod(1)), ("xo", 0), ("xo", 1)],
+        "b leaves first, a wrote last": [("eo", 0), ("eo", 1), ("op", 1, [], mod(1)), ("op", 0, [], mod(0)), ("xo", 1), ("xo", 0)],
+        "backend-wide: a, b, a": [("ec", None), ("op", 0, [], mod(0)), ("op", 1, [], mod(1)), ("op", 0, [], mod(2)), ("xc",)],
+        "backend-wide: b only reads, a writes": [("ec", None), ("op", 1, [], read), ("op", 0, [], mod(0)), ("op", 1, [], read), ("xc",)],
+        "backend-wide: b resets without reading": [("ec", None), ("op", 0, [], mod(0)), ("op", 1, [], reset), ("op", 0, [], read), ("xc",)],
+        "nested: backend > a > b": [("ec", None), ("eo", 0), ("eo", 1), ("op", 0, [], mod(0)), ("op", 1, [], mod(1)), ("xo", 1), ("op", 0, [], mod(2)), ("xo", 0), ("xc",)],
+        "other file in between": [("ec", None), ("op", 0, [], mod(0)), ("op", 2, [], mod(5)), ("op", 1, [], mod(1)), ("xc",)],
+    }
+    for name, sc in out.items():
+        yield name, sc + [("op", 0, [], read), ("op", 1, [], read), ("op", 2, [], read)]
+
+
+def run_c06_directed(seed, tier):
+    ns = import_library()
+    tmp = tempfile.mkdtemp(prefix="verif_kc06_")
+    out = {"cases": [], "logs": [], "oracle": [], "stats": {}, "classes": {}, "meta": []}
+    try:
+        i = 0
+        for cls in buffered_classes(ns):
+            probe = BSession(ns, cls, 0, {"files": 2, "binding": [0, 0, 1]}, tmp)
+            for name, sc in c06_scripts(probe.kind):
+                s = BSession(ns, cls, seed * 100003 + i, {"files": 2, "binding": [0, 0, 1]}, tmp)
+                s.reset_class()
+                try:
+                    s.run_script(sc)
+                except Exception:  # noqa
+                    import traceback
+                    s.fails.append({"oracle": "harness", "step": len(s.log), "detail": traceback.format_exc()[-1500:]})
+                finally:
+                    s.reset_class()
+                out["cases"].append(s.coq_case())
+                out["logs"].append(s.log)
+                out["meta"].append({"session": i, "class": cls.__name__, "seed": s.seed, "strategy": s.strat, "script": name})
+                for f in s.fails:
+                    f = dict(f)
+                    f.update(session=i, cls=cls.__name__, seed=s.seed, script=name)
+                    out["oracle"].append(f)
+                out["classes"][cls.__name__] = out["classes"].get(cls.__name__, 0) + 1
+                i += 1
+    finally:
+        shutil.rmtree(tmp, ignore_errors=True)
+    return out
